@@ -375,3 +375,15 @@ from .C02 import AsyncScope as _AsyncScope, SyncScope as _SyncScope, variant as 
 _c10 = lambda n: n.startswith(("C10-", "C02-P0")) or "MetricsContext-variable-is-what-it-was" in n   # noqa: E731
 CONTRACTS = [Record(), Read(), Metrics(), MergeStep(), ContextRecord(), _variant(_AsyncScope, "C10", _c10),
              _variant(_SyncScope, "C10", _c10)]
+
+
+def extra_contracts():
+    """Borrowed late (contracts/C09.py imports this module's base classes): "its merged view folds in the values of nested scopes
+    in their creation order" needs every new scope to be registered in the `_nested` list of the scope current at its creation
+    (unless that one is already completed): the registration clauses of C09."""
+    from .C09 import Init as _Init
+    from .C19 import ScopeFactory as _SF
+    reg = lambda n: "registered" in n or "detached" in n or n.startswith(("post:I4", "C09-P0"))      # noqa: E731
+    return [_variant(_Init, "C10", reg),
+            type("C10ScopeFactory", (_SF,), dict(name="C10/metrics:MetricsContext.scope", props=("C10",),
+                                                 keep=staticmethod(lambda n: n.startswith("C09-P0") or n == "canary")))()]
